@@ -2,6 +2,7 @@ package cachesim
 
 import (
 	"fmt"
+	"math"
 	"sort"
 	"sync"
 	"sync/atomic"
@@ -160,6 +161,8 @@ type decision9 struct {
 	postUsed   int64
 	postMax    int64
 	postSum    int64
+	postTrue   int64 // sum without wrap-around (valid unless postOver)
+	postOver   bool
 	lowering   bool
 	added      bool
 	wasRes     bool
@@ -363,8 +366,14 @@ func hookMutexUnlocking(kind int) {
 	d := &e.dec9
 	kcs, used, max := e.api.PolicyCostsLocked()
 	d.postUsed, d.postMax, d.postSum = used, max, 0
+	d.postTrue, d.postOver = 0, false
 	for _, kc := range kcs {
-		d.postSum += kc.Cost
+		d.postSum += kc.Cost // wraps exactly as the cache's own counter does
+		if kc.Cost > 0 && d.postTrue > math.MaxInt64-kc.Cost {
+			d.postOver = true // the true total does not fit in an int64
+		} else {
+			d.postTrue += kc.Cost
+		}
 	}
 	d.captured = true
 }
@@ -1132,7 +1141,7 @@ func (e *Engine) raceOp(cl *client, op Op) {
 	case OpClear:
 		e.api.Clear()
 	case OpUpdateMaxCost:
-		target := e.api.MaxCost() + op.Arg
+		target := satAdd(e.api.MaxCost(), op.Arg)
 		if op.Arg < -(1 << 49) {
 			target = op.Arg + (1 << 50)
 		}
@@ -1298,7 +1307,7 @@ func (e *Engine) runOp(cl *client, oi int, op Op) {
 		defer atomic.StoreInt32(&e.upmaxBusy, 0)
 		e.opBegin(cl, op)
 		cur := e.api.MaxCost()
-		target := cur + op.Arg
+		target := satAdd(cur, op.Arg) // never wraps into a lowering
 		if op.Arg < -(1 << 49) {
 			target = op.Arg + (1 << 50) // absolute small value
 		}
